@@ -50,7 +50,9 @@ var c07Paths = []string{"registry", "jsonTop", "jsonNested", "jsonList", "jsonIt
 	// the value next to a member whose type is outside the vocabulary, in an array held by an item position / at the top level
 	"jsonForeignSibling", "jsonTopForeign",
 	// the value without id and name, carrying only a property of its own family
-	"jsonAnonTop", "jsonAnonNested", "jsonAnonList"}
+	"jsonAnonTop", "jsonAnonNested", "jsonAnonList",
+	// the document as other writers spell it: solidi escaped (PHP's json_encode), letters as \u escapes
+	"jsonEscapedTop", "jsonEscapedNested", "jsonEscapedList"}
 
 // … and the value nested under each item-valued property of an object, in both codecs (a property whose
 // reader or decoder assumes the common representation of its values)
@@ -207,6 +209,28 @@ func c07Run(cell c07Cell) (goType string, idOK, markerOK bool, it ap.Item, pan s
 								it, _ = reflect.ValueOf(oo).Elem().FieldByName(field).Interface().(ap.Item)
 							}
 						}
+					}
+				}
+			}
+			if strings.HasPrefix(cell.Via, "jsonEscaped") {
+				// every solidus as \/ and the letters of the type name and of "example" as \u00xx: the same document
+				esc := strings.ReplaceAll(doc, "/", `\/`)
+				esc = strings.ReplaceAll(esc, "example", `\u0065xampl\u0065`)
+				if len(cell.Name) > 1 {
+					esc = strings.Replace(esc, `"type":"`+cell.Name+`"`, `"type":"`+fmt.Sprintf(`\u%04x`, cell.Name[0])+cell.Name[1:]+`"`, 1)
+				}
+				switch cell.Via {
+				case "jsonEscapedTop":
+					it, _ = ap.UnmarshalJSON([]byte(esc))
+				case "jsonEscapedNested":
+					outer, _ := ap.UnmarshalJSON([]byte(`{"id":"https://example.com/outer","type":"Create","object":` + esc + `}`))
+					if a, ok := outer.(*ap.Activity); ok {
+						it = a.Object
+					}
+				case "jsonEscapedList":
+					outer, _ := ap.UnmarshalJSON([]byte(`{"id":"https://example.com/outer","type":"Collection","items":[` + esc + `,"https:\/\/example.com\/an-iri"]}`))
+					if c, ok := outer.(*ap.Collection); ok && len(c.Items) > 0 && !ap.IsIRI(c.Items[0]) {
+						it = c.Items[0]
 					}
 				}
 			}
